@@ -440,8 +440,45 @@ def rsu_arm(F, rep):
            "the RSU arm has no error path for a missing awards file (a cost would have to be invented)", b.loc(), key="R3:rsu:no-awards")
 
 
+def classifiers(F, rep, prefix="cgt_converter::schwab::awards", rule="R4"):
+    """every action name listed in a string classifier of the awards module reaches the arm it is listed under: the set of
+    vesting / non-vesting actions the code LISTS is the set it ACTS on (a guard arm above must not shadow a listed literal —
+    `Some(f) if f.starts_with("Forced") => Vesting` above `"Forced Disbursement" => NonVesting` turns a cash action with empty
+    details into an error; seeded change C19-s8)"""
+    import strmatch
+    import panics as P
+    total = 0
+    for b in F.bodies.values():
+        if not b.id.startswith(prefix) or b.kind not in ("fn", "method") or not P.user_written(F, b):
+            continue
+        n, bad = strmatch.shadowed_literals(b)
+        if not n:
+            continue
+        total += n
+        rep.ob(rule, f"{b.short}:listed-literals-reach-their-arm", not bad,
+               f"{n} listed literals each reach the arm they are listed under" if not bad else
+               "; ".join(f"\"{lit}\" is listed under {own[0]} but classified as {act[0]} (an arm above catches it first)" for lit, site, own, act in bad[:3]),
+               bad[0][1] if bad else b.loc(), key=f"{rule}:{b.short}:shadowed-literal")
+    if not total:
+        rep.note(f"{rule}: no string classifier with listed literals found under {prefix} (a table-driven classifier is not judged by this rule)")
+    rep.count(f"{rule}_literals_judged", total)
+
+
 def run(ctx, rep):
     F = ctx.F
     lookup_shape(F, rep)
     map_building(F, rep)
     rsu_arm(F, rep)
+    classifiers(F, rep)
+
+
+def controls(pctx, rep):
+    import strmatch
+    F = pctx.F
+    try:
+        n1, bad1 = strmatch.shadowed_literals(F.one("classifier_shadowed"))
+        n2, bad2 = strmatch.shadowed_literals(F.one("classifier_clean"))
+        ok = [x[0] for x in bad1] == ["Forced Out"] and not bad2 and n2 >= 6
+        rep.control("R4:shadowed-literal", ok, f"posctl: shadowed in classifier_shadowed = {[x[0] for x in bad1]} (expected ['Forced Out']), in classifier_clean = {[x[0] for x in bad2]} of {n2}")
+    except Exception as e:
+        rep.control("R4:shadowed-literal", False, f"string-classifier engine failed on posctl: {e}")
